@@ -8,6 +8,8 @@ MC_OtherLogs == {"init"}
 MC_Bases     == {"b1", "b2"}
 MC_MainLogs  == {"log", "eqn", "timeseries"}
 MC_None      == {}
+MC_MainAlways == {"timeseries"}
+MC_KindsBoth == {"solves", "fails"}
 
 Sh(p, e, k) == [prio |-> p, endline |-> e, kind |-> k]
 
